@@ -6,6 +6,10 @@ TECH = "contract-based deductive verification: WP/VC generation over the typed G
 
 # id -> (level category, level text, level_note, design_ref)
 CLAIMS = {
+ "C25": ("proof",
+         "auth.ValidatePassword carries the property statement as a two-way postcondition (result <==> user exists case-insensitively && stored credential matches in its format && logon or root permission), findPermission and HashPassword have their own contracts, and the migration write is an anchored assertion (what is written is a bcrypt hash of the password just accepted, for the same user). All obligations discharge for all inputs.",
+         "Trusted: bcrypt compare/generate agree (bcryptOK); the user store behind the userIOService interface returns the stored record (C30/C31); settings.GetBool is a function of the setting name during one call; strings.EqualFold/HashString are functions. Hash collisions are outside the model.",
+         "§7 C25"),
  "C27": ("proof",
          "Every function on the decryption path of internal/util and internal/cli/settings carries a postcondition 'nil error ==> the AES-GCM tag of the input verified under the key derived from the passphrase' and safe-mode obligations on every slice; callers are checked against callee contracts. All obligations are discharged for all inputs (no bound).",
          "Trusted: AES-GCM authenticity (cipher.AEAD.Open contract), KDFs are functions, base64 decoding is a function; frame rules of DESIGN §3.5; sequential semantics. The round-trip direction (decrypt(encrypt(x)) == x) rests on the trusted AEAD contract and is not machine-checked.",
